@@ -72,72 +72,104 @@ def kidL : Blk → List Leaf
   | .ifO l _ _ r => l :: kidL r
   | .forO l _ _ _ r => l :: kidL r
 
+/-- which repairs of `insert_sync_barrier.py` the walk includes:
+`orig` = the pinned commit; `f17` = with `fixes/F17-sync-barrier-reached-through.diff`;
+`all` = additionally `fixes/FC13a-sync-barrier-common-loop.diff` (the yield of the innermost loop that contains
+both operations becomes pending) — `fixes/FC13b-sync-barrier-views.diff` is the parameter `rt` of the walk. -/
+inductive Fix where
+  | orig | f17 | all
+deriving DecidableEq, Repr, Inhabited
+
 /-- What the walk knows about the block it is in. `scope`: ids of all operations in the block or nested
 below it (`is_reached_through`); `forKids`: when the block is the body of an `scf.for`, the ids of its
 direct children (terminator included) and the id of the terminator (the "same parent, parent is a
-ForOp" test). -/
+ForOp" test of the code without FC13a); `loops`: the enclosing `scf.for` operations, innermost first, each as
+(ids of all operations inside the loop, id of its terminator) (`common_loop`, FC13a). -/
 structure Ctx where
   scope : List Nat
   forKids : Option (List Nat × Nat)
+  loops : List (List Nat × Nat)
 deriving Repr, Inhabited
 
-def yieldOf (cx : Ctx) (u : Leaf) : List Nat :=
-  match cx.forKids with
-  | some (kids, y) => if kids.contains u.id then [y] else []
-  | none => []
+/-- `common_loop`: the terminator of the innermost enclosing loop that also contains operation `uid` -/
+def firstLoop : List (List Nat × Nat) → Nat → Option Nat
+  | [], _ => none
+  | (sc, y) :: rest, uid => if sc.contains uid then some y else firstLoop rest uid
+
+def yieldOf (fx : Fix) (cx : Ctx) (u : Leaf) : List Nat :=
+  if fx = Fix.all then
+    (match firstLoop cx.loops u.id with
+     | some y => [y]
+     | none => [])
+  else
+    match cx.forKids with
+    | some (kids, y) => if kids.contains u.id then [y] else []
+    | none => []
 
 /-- what one use `u` of a value of the current op `o` appends to `ops_to_sync` -/
-def addsFor (cx : Ctx) (o u : Leaf) : List Nat :=
-  (if o.cls == Cls.dm && u.cls != Cls.dm then u.id :: yieldOf cx u else []) ++
-  ((if o.cls == Cls.cp && u.cls != Cls.cp then u.id :: yieldOf cx u else []) ++
+def addsFor (fx : Fix) (cx : Ctx) (o u : Leaf) : List Nat :=
+  (if o.cls == Cls.dm && u.cls != Cls.dm then u.id :: yieldOf fx cx u else []) ++
+  ((if o.cls == Cls.cp && u.cls != Cls.cp then u.id :: yieldOf fx cx u else []) ++
    (if u.dealloc then [u.id] else []))
 
-/-- users of value `v` in the whole function -/
-def usersOf (all : List Leaf) (v : Nat) : List Leaf := all.filter (fun u => u.vals.contains v)
+/-- users of value `v` in the whole function: every operation that uses or defines a value with the same root
+(`uses_through_views`, FC13b; `rt = id`: the users of `v` itself) -/
+def usersOf (all : List Leaf) (rt : Nat → Nat) (v : Nat) : List Leaf :=
+  all.filter (fun u => u.vals.any (fun w => rt w == rt v))
 
-def adds (all : List Leaf) (cx : Ctx) (o : Leaf) : List Nat :=
-  o.vals.flatMap (fun v => (usersOf all v).flatMap (addsFor cx o))
+def adds (fx : Fix) (all : List Leaf) (rt : Nat → Nat) (cx : Ctx) (o : Leaf) : List Nat :=
+  o.vals.flatMap (fun v => (usersOf all rt v).flatMap (addsFor fx cx o))
 
 /-- the pending list after a barrier in a block with the given scope -/
-def discharge (fixed : Bool) (scope : List Nat) (P : List Nat) : List Nat :=
-  if fixed then P.filter (fun u => !scope.contains u) else []
+def discharge (fx : Fix) (scope : List Nat) (P : List Nat) : List Nat :=
+  if fx = Fix.orig then [] else P.filter (fun u => !scope.contains u)
 
 /-- visit one operation: (a barrier is inserted in front of it, pending list afterwards) -/
-def visit (fixed : Bool) (all : List Leaf) (cx : Ctx) (o : Leaf) (P : List Nat) : Bool × List Nat :=
+def visit (fx : Fix) (all : List Leaf) (rt : Nat → Nat) (cx : Ctx) (o : Leaf) (P : List Nat) : Bool × List Nat :=
   ((P.contains o.id),
-   (if P.contains o.id then discharge fixed cx.scope P else P) ++ adds all cx o)
+   (if P.contains o.id then discharge fx cx.scope P else P) ++ adds fx all rt cx o)
 
 def withSync (hit : Bool) (b : Blk) : Blk := if hit then .sync b else b
 
-def bodyCtx (b : Blk) (y : Leaf) : Ctx :=
-  { scope := idsB b ++ [y.id], forKids := some ((kidL b).map (·.id) ++ [y.id], y.id) }
+def bodyCtx (cx : Ctx) (b : Blk) (y : Leaf) : Ctx :=
+  { scope := idsB b ++ [y.id], forKids := some ((kidL b).map (·.id) ++ [y.id], y.id),
+    loops := (idsB b ++ [y.id], y.id) :: cx.loops }
 
-def plainCtx (b : Blk) : Ctx := { scope := idsB b, forKids := none }
+def plainCtx (cx : Ctx) (b : Blk) : Ctx := { scope := idsB b, forKids := none, loops := cx.loops }
+
+def topCtx (p : Blk) : Ctx := { scope := idsB p, forKids := none, loops := [] }
 
 /-- the walk: output block and pending list at the end -/
-def walkB (fixed : Bool) (all : List Leaf) (cx : Ctx) : Blk → List Nat → Blk × List Nat
+def walkB (fx : Fix) (all : List Leaf) (rt : Nat → Nat) (cx : Ctx) : Blk → List Nat → Blk × List Nat
   | .nil, P => (.nil, P)
   | .leaf l r, P =>
-    let w := walkB fixed all cx r (visit fixed all cx l P).2
-    (withSync (visit fixed all cx l P).1 (.leaf l w.1), w.2)
+    let w := walkB fx all rt cx r (visit fx all rt cx l P).2
+    (withSync (visit fx all rt cx l P).1 (.leaf l w.1), w.2)
   | .sync r, P =>
-    let w := walkB fixed all cx r (discharge fixed cx.scope P)
+    let w := walkB fx all rt cx r (discharge fx cx.scope P)
     (.sync w.1, w.2)
   | .ifO l t e r, P =>
-    let wt := walkB fixed all (plainCtx t) t (visit fixed all cx l P).2
-    let we := walkB fixed all (plainCtx e) e wt.2
-    let w := walkB fixed all cx r we.2
-    (withSync (visit fixed all cx l P).1 (.ifO l wt.1 we.1 w.1), w.2)
+    let wt := walkB fx all rt (plainCtx cx t) t (visit fx all rt cx l P).2
+    let we := walkB fx all rt (plainCtx cx e) e wt.2
+    let w := walkB fx all rt cx r we.2
+    (withSync (visit fx all rt cx l P).1 (.ifO l wt.1 we.1 w.1), w.2)
   | .forO l b ys y r, P =>
-    let wb := walkB fixed all (bodyCtx b y) b (visit fixed all cx l P).2
-    let P2 := if ys then discharge fixed (bodyCtx b y).scope wb.2 else wb.2
-    let vy := visit fixed all (bodyCtx b y) y P2
-    let w := walkB fixed all cx r vy.2
-    (withSync (visit fixed all cx l P).1 (.forO l wb.1 (ys || vy.1) y w.1), w.2)
+    let wb := walkB fx all rt (bodyCtx cx b y) b (visit fx all rt cx l P).2
+    let P2 := if ys then discharge fx (bodyCtx cx b y).scope wb.2 else wb.2
+    let vy := visit fx all rt (bodyCtx cx b y) y P2
+    let w := walkB fx all rt cx r vy.2
+    (withSync (visit fx all rt cx l P).1 (.forO l wb.1 (ys || vy.1) y w.1), w.2)
 
-/-- `insert-sync-barrier` on a function body -/
-def insertBarriers (fixed : Bool) (p : Blk) : Blk :=
-  (walkB fixed (leavesB p) (plainCtx p) p []).1
+/-- `insert-sync-barrier` on a function body; `rt` maps an SSA value to the value it is a view of (root) -/
+def insertBarriers (fx : Fix) (rt : Nat → Nat) (p : Blk) : Blk :=
+  (walkB fx (leavesB p) rt (topCtx p) p []).1
+
+/-- root of a value under a list of (view result, source) pairs -/
+def rootOf (views : List (Nat × Nat)) : Nat → Nat → Nat
+  | 0, v => v
+  | n + 1, v => match views.lookup v with
+    | some src => rootOf views n src
+    | none => v
 
 /-! ## Executions -/
 
